@@ -16,8 +16,23 @@ def generate(rng, tier, shard, nshards):
         srn = ["Sat3", "Sat3", "RatU", "Bool", "Sat2", "Rat"][i % 6]
         acyc = srn in ("RatU", "Rat") or i % 5 == 0
         nA, nB = rng.choice([(2, 3), (3, 2), (2, 2), (3, 3), (1, 3)])
-        A = aops.rand_fst(rng, srn, nS=nA, narcs=rng.choice([2, 4, 5]), acyclic=acyc)
-        B = aops.rand_fst(rng, srn, nS=nB, narcs=rng.choice([2, 4, 5]), acyclic=acyc)
+        if i % 3 == 1:
+            # epsilon-heavy on the matching tape: runs of epsilon-output moves in A against runs of epsilon-input moves in B
+            A = aops.rand_fst(rng, srn, nS=nA, narcs=rng.choice([4, 6]), outs=("", "", "a", "b"), acyclic=acyc)
+            B = aops.rand_fst(rng, srn, nS=nB, narcs=rng.choice([4, 6]), ins=("", "", "a", "b"), acyclic=acyc)
+        elif i % 3 == 2:
+            # few states, many arcs: parallel arcs that differ only in the intermediate symbol
+            nA, nB = rng.choice([(1, 1), (1, 2), (2, 1), (2, 2)])
+            A = aops.rand_fst(rng, srn, nS=nA, narcs=rng.choice([5, 7]), ins=("a", "b"), outs=("a", "b"), acyclic=False)
+            B = aops.rand_fst(rng, srn, nS=nB, narcs=rng.choice([5, 7]), ins=("a", "b"), outs=("a", "b"), acyclic=False)
+            acyc = False
+            if srn in ("RatU", "Rat"):
+                srn = "Sat3"
+                A = aops.rand_fst(rng, srn, nS=nA, narcs=6, ins=("a", "b"), outs=("a", "b"))
+                B = aops.rand_fst(rng, srn, nS=nB, narcs=6, ins=("a", "b"), outs=("a", "b"))
+        else:
+            A = aops.rand_fst(rng, srn, nS=nA, narcs=rng.choice([2, 4, 5]), acyclic=acyc)
+            B = aops.rand_fst(rng, srn, nS=nB, narcs=rng.choice([2, 4, 5]), acyclic=acyc)
         feat = "+".join(x for x in ["epsout" if any(r[2] == "" for r in A["arcs"]) else "",
                                     "epsin" if any(r[1] == "" for r in B["arcs"]) else "",
                                     "epseps" if any(r[1] == r[2] == "" for r in A["arcs"] + B["arcs"]) else "",
